@@ -350,7 +350,8 @@ class BaseTemplate:
             self.engine,
             module,
             str(self.filename),
-            body,
+            # ``parse`` may have normalized the line endings
+            getattr(program, 'source', body),
             builtins=builtins,
             strict=self.strict
         )
